@@ -93,7 +93,16 @@ def run(ctx, gen_status):
             return ['S', r.choice([0, 1])]
         return ['L', r.randrange(3)]
     trees = [{'spec': rand_spec(0), 'n': r.randint(1, 3)} for _ in range(ctx.n(150, 1500))]
-    res = vlib.run_impl('sampler_cases.py', {'uniform': uni, 'dist': dist, 'loader': loader, 'struct': struct, 'tree': trees}, timeout=3600)
+    res = vlib.run_impl('sampler_cases.py', {'uniform': uni, 'dist': dist, 'loader': loader, 'struct': struct, 'tree': trees,
+                                             'dtypes': ['float32', 'float64', 'float16', 'bfloat16']}, timeout=3600)
+    # the inclusion probability is q whatever the process-wide default dtype: the uniform draws have at least binary32 resolution
+    for d in res['dtypes']:
+        case = {'default_dtype': d['default']}
+        ctx.case(case, nontrivial=d['default'] in ('float16', 'bfloat16'), kind='draw-dtype/' + d['default'])
+        coarse = [x for x in d['draws'] if x not in ('float32', 'float64')]
+        if coarse or len(d['draws']) != 4:
+            ctx.fail('mask-draw-resolution', 'default dtype %s: the Poisson masks are drawn in %s (%d draws): indices are included with probability q rounded up to that grid, not q'
+                     % (d['default'], sorted(set(d['draws'])), len(d['draws'])), case)
     items = ['(%s, %s)' % (t['input'], t['output']) for t in res['tree']]
     hdr = 'From Coq Require Import List String Arith.\nFrom OV Require Import Model.Batch Exec.RunBatch.\nImport ListNotations.\n'
     body = 'Definition cases : list (btree * btree) := [\n ' + ';\n '.join(items) + '\n].\nEval vm_compute in (bad_batch 0 cases).\n'
